@@ -1,7 +1,7 @@
 (* C05 -- Binomial schedules perform the minimal possible number of forward steps
    Property theorems only: each proof is one application of a lemma proved in Proofs/, followed by Print Assumptions. *)
 From Coq Require Import ZArith List Bool.
-From CS Require Inst GW2 RevCost BinomDP RevConv RevBridge4 RevolveRun RevolveGW Opt0Table.
+From CS Require Inst GW2 RevCost BinomDP RevConv RevBridge4 RevolveRun RevolveGW Opt0Table GenLang3 GenMulti.
 From CS Require Import Actions NAdvance Multistage Exec Sched RunFacts Projections BasicInv MultistageRun AllocTotal TLBridge MixBridge.
 Import ListNotations.
 Open Scope Z_scope.
@@ -15,6 +15,19 @@ Theorem C05_multistage_forward_total : forall (N ram disk : Z) (tj : traj) (c : 
         is_exhausted s1 = true -> fwd_total (cnt (mx m)) = Inst.TC tj N (total c)).
 Proof. exact multistage_run. Qed.
 Print Assumptions C05_multistage_forward_total.
+
+(* THE MODEL OF MultistageCheckpointSchedule IS THE SOURCE: GenMulti.multi_prog_model is the program (generator language GenLang3) that harness/translate.py produces from MultistageCheckpointSchedule._iterator, the nested helper write(n) inlined at its two call sites; Gen/MultistageGen.v re-translates the current source on every run and proves it equal to that term by conversion.  For every parameter tuple the constructor accepts, resuming that program request by request gives under EVERY history of next() and finalize(k) calls exactly the observations (outcome, n, r, max_n, is_exhausted) of the schedule object of Model/Sched.v (srun_ops: Sched.next / Sched.finalize on the Multistage machine) -- so the Multistage theorems of this file, stated on the extracted model, are theorems about the translated source.  (The unit total self._snapshots_in_ram + self._snapshots_on_disk is read as the length of the label tuple self._storage, which is what __init__ recounts them from; the allocation of the labels, allocate_snapshots, is tied by the correspondence.) *)
+Module M_C05_multistage_source_is_model.
+Import GenMulti.
+Theorem C05_multistage_source_is_model :
+  forall (n ram disk : Z) (tj : NAdvance.traj) (ops : list Online.op) (s : Sched.sched),
+         Sched.construct (Sched.PMulti n ram disk tj) = Actions.Ok s ->
+         exists c : Multistage.cfg,
+           Multistage.construct n ram disk tj = Actions.Ok c /\
+           grun_ops (cfg3 c) [GenLang3.FS multi_prog_model] (g_init n) ops = srun_ops s ops.
+Proof. exact (@GenMulti.multi_from_start). Qed.
+Print Assumptions C05_multistage_source_is_model.
+End M_C05_multistage_source_is_model.
 
 (* TC (the forward work of the recursion n_advance defines) = n + E n k, and E n k = the Griewank-Walther closed form; E = the model of optimal_extra_steps *)
 Module M_C05_chain.
